@@ -116,7 +116,7 @@ class C15(Check):
                    "state-change matrix and initial state, and a symbolic grid g0=t0<g1<..<gn that may end before or after the last event "
                    "(grid past extinction).  z3 decides for every relative order of event and grid times that row k is the state after the "
                    "last event not later than g_k, interval counts are per-event counts of events strictly inside the interval, and "
-                   "consecutive rows differ by V x counts.")
+                   "consecutive rows differ by V x counts.  Includes paths with NO event (run started in an absorbing state) and typed integer grids.")
     stubs = ["SimulateOde._jump replaced by a generator of arbitrary legal paths (the property is about the post-processing)"]
     assumptions = ["no event time coincides exactly with a requested time (measure zero)", "first requested time is the initial time",
                    "tau-leap interpolation of states between leaps is not claimed by the property", "floats as reals"]
